@@ -223,6 +223,9 @@ class GUPPIRawReader(BasebandReader):
     def _read_array(self, offset, n, /, **kwargs):
         """Read n samples from current read position into numpy array."""
         z = self._read_baseband(offset, n, **kwargs)
+        if self.lower_sideband:
+            # Channels of a lower-sideband recording (OBSBW < 0) descend in frequency.
+            z = np.flip(z, axis=-1)
         return z.transpose(0, 2, 1)
 
 
